@@ -679,6 +679,74 @@ func c11Eviction(c *Ctx, p *Prog) {
 	} else {
 		ob.HoldNT("purge guarded by Len()>=102400 (in loop) | ttl<=0 | age>=ttl; reset on negative age")
 	}
+	// the walk is left only for a reason that has to do with the list: it is empty, the clock went
+	// backwards (reset), or the eldest entry is still young (and the filter not full)
+	ob = c.Obl("R5", "common/replayfilter:(*ReplayFilter).compactFilter#exits", "compactFilter returns only when the list is exhausted, after a reset, or at an entry younger than the TTL: no other early exit (a memoised 'nothing to do') can skip the purge of a full filter or of expired entries")
+	bad = ""
+	nExit := 0
+	for _, r := range returnsOf(cf) {
+		if ff.Infeasible(r.Block()) {
+			continue
+		}
+		nExit++
+		fs := ff.NC(r.Block())
+		okExit := false
+		for _, alt := range ff.Alternatives(fs, 0) {
+			okAlt := false
+			for _, f := range alt {
+				// (a) the element under inspection is nil
+				if x, isNil, ok := FactNilCmp(f); ok && isNil && isNamedType(x.Type(), "container/list", "Element") {
+					okAlt = true
+				}
+				// (c) young entry: age < ttl
+				if b, isB := f.Cond.(*ssa.BinOp); isB {
+					op := b.Op
+					if !f.Pol {
+						op = negOp(op)
+					}
+					if isFieldLoad(b.Y, tRF, "ttl") && op == token.LSS {
+						if sc, _ := callOf(unspill(b.X)); sc != nil && p.CalleeID(sc.Common()) == "(time.Time).Sub" {
+							okAlt = true
+						}
+					}
+				}
+			}
+			// (b) after the reset
+			for _, rc := range resets {
+				if instrDominates(rc, r) {
+					okAlt = true
+				}
+			}
+			if okAlt {
+				okExit = true
+			} else {
+				okExit = false
+				break
+			}
+		}
+		if !okExit {
+			bad = "the return at " + p.InstrPos(r) + " leaves compactFilter for a reason unrelated to the list (" + factsString(p, fs) + "): a full filter or expired entries are not purged on that call"
+		}
+	}
+	if nExit == 0 && bad == "" {
+		bad = "no exit found"
+	}
+	if bad != "" {
+		ob.Violate("%s", bad)
+	} else {
+		ob.HoldNT("%d exit(s): list exhausted | reset | young entry", nExit)
+	}
+}
+
+func factsString(p *Prog, fs []Fact) string {
+	var out []string
+	for _, f := range fs {
+		out = append(out, p.FactString(f))
+	}
+	if len(out) == 0 {
+		return "unconditionally"
+	}
+	return strings.Join(out, "; ")
 }
 
 // isFreshLocal: v is an object allocated in the calling function (new/&T{}).
